@@ -457,11 +457,254 @@ def _fix_summary(fn):
     return out
 
 
+CASES = ('ABSENT', 'NONE', 'ZERO', 'NUM')
+WANT_MASK = {'ABSENT': 'unchanged', 'NONE': False, 'ZERO': True, 'NUM': True}
+
+
+class _Top(Exception):
+    pass
+
+
+def _case_effects(fn):
+    """Abstract run of the per-name update loop of fix_parameters for the
+    four kinds of dictionary entry a name can have: absent, None, a number
+    that is falsy (0.0) and any other number.
+    -> {case: (mask effect, values written?)}; raises _Top with a reason when
+    the loop is outside the interpreted idioms."""
+    params = [a.arg for a in fn.args.args if a.arg != 'self']
+    if not params:
+        raise _Top('no dictionary parameter')
+    dnames = {params[0]}
+    mask_alias, val_alias = {MASK}, {VALS}
+    loop = None
+    for st in fn.body:
+        if isinstance(st, ast.Assign) and len(st.targets) == 1 \
+                and isinstance(st.targets[0], ast.Name):
+            v = st.value
+            if isinstance(v, ast.Call) and U(v.func) == 'dict' and v.args \
+                    and U(v.args[0]) in dnames:
+                dnames.add(st.targets[0].id)
+            if U(v) in mask_alias:
+                mask_alias.add(st.targets[0].id)
+            if U(v) in val_alias:
+                val_alias.add(st.targets[0].id)
+        if isinstance(st, ast.Try):
+            for b in st.body:
+                if isinstance(b, ast.Assign) and isinstance(
+                        b.value, ast.Call) and U(b.value.func) == 'dict' \
+                        and b.value.args and U(b.value.args[0]) in dnames \
+                        and isinstance(b.targets[0], ast.Name):
+                    dnames.add(b.targets[0].id)
+        if isinstance(st, ast.For) and any(
+                isinstance(x, (ast.Assign, ast.AugAssign)) and any(
+                    isinstance(t, ast.Subscript) and U(t.value) in mask_alias
+                    for t in (x.targets if isinstance(x, ast.Assign)
+                              else [x.target]))
+                for x in ast.walk(st)):
+            loop = st
+    if loop is None:
+        raise _Top('per-name update loop not found')
+    # the loop runs over the model's names (entries absent from the
+    # dictionary are visited) or over the dictionary's items (they are not)
+    over_items = isinstance(loop.iter, ast.Call) and isinstance(
+        loop.iter.func, ast.Attribute) and loop.iter.func.attr == 'items' \
+        and U(loop.iter.func.value) in dnames
+    item_value = None
+    if over_items:
+        if isinstance(loop.target, ast.Tuple) and len(loop.target.elts) == 2 \
+                and isinstance(loop.target.elts[1], ast.Name):
+            item_value = loop.target.elts[1].id
+        else:
+            raise _Top('items() loop target not (name, value)')
+
+    def is_lookup(e):
+        """d[name] -> 'sub';  d.get(name[, default]) -> ('get', default)"""
+        if isinstance(e, ast.Subscript) and U(e.value) in dnames:
+            return 'sub'
+        if isinstance(e, ast.Call) and isinstance(e.func, ast.Attribute) \
+                and e.func.attr == 'get' and U(e.func.value) in dnames:
+            return ('get', e.args[1] if len(e.args) > 1 else None)
+        return None
+
+    def truth(e, env):
+        """three-valued truth of a test; None = unknown"""
+        if isinstance(e, ast.UnaryOp) and isinstance(e.op, ast.Not):
+            t = truth(e.operand, env)
+            return None if t is None else (not t)
+        if isinstance(e, ast.BoolOp):
+            ts = [truth(v, env) for v in e.values]
+            if isinstance(e.op, ast.And):
+                if any(t is False for t in ts):
+                    return False
+                return True if all(t is True for t in ts) else None
+            if any(t is True for t in ts):
+                return True
+            return False if all(t is False for t in ts) else None
+        if isinstance(e, ast.Constant):
+            return bool(e.value)
+        if isinstance(e, ast.Name) and e.id in env:
+            c = env[e.id]
+            if c in ('NONE', 'ZERO'):
+                return False
+            if c == 'NUM':
+                return True
+            return None
+        if isinstance(e, ast.Compare) and len(e.ops) == 1:
+            l, r, op = e.left, e.comparators[0], e.ops[0]
+            if isinstance(op, (ast.In, ast.NotIn)) and U(r) in dnames | {
+                    '%s.keys()' % d for d in dnames}:
+                present = env['@case'] != 'ABSENT'
+                return present if isinstance(op, ast.In) else not present
+            if isinstance(r, ast.Constant) and r.value is None and \
+                    isinstance(l, ast.Name) and l.id in env and isinstance(
+                        op, (ast.Is, ast.IsNot, ast.Eq, ast.NotEq)):
+                isnone = env[l.id] == 'NONE'
+                return isnone if isinstance(op, (ast.Is, ast.Eq)) \
+                    else not isnone
+        return None
+
+    def run(stmts, env, eff):
+        """-> 'next' (fell through) | 'stop' (continue/break/return)"""
+        for st in stmts:
+            if isinstance(st, ast.Try):
+                looked = [b for b in st.body if isinstance(b, ast.Assign)
+                          and is_lookup(b.value) == 'sub']
+                catches = any(h.type is None or 'KeyError' in U(h.type)
+                              or U(h.type) in ('Exception', 'LookupError')
+                              for h in st.handlers)
+                if looked and catches and env['@case'] == 'ABSENT':
+                    # statements before the lookup ran, then the handler
+                    pre = st.body[:st.body.index(looked[0])]
+                    if run(pre, env, eff) == 'stop':
+                        return 'stop'
+                    hs = [h for h in st.handlers if h.type is None
+                          or 'KeyError' in U(h.type)
+                          or U(h.type) in ('Exception', 'LookupError')]
+                    if run(hs[0].body, env, eff) == 'stop':
+                        return 'stop'
+                    continue
+                if run(st.body, env, eff) == 'stop':
+                    return 'stop'
+                if run(st.orelse, env, eff) == 'stop':
+                    return 'stop'
+                continue
+            if isinstance(st, ast.If):
+                t = truth(st.test, env)
+                if t is None:
+                    if any(isinstance(x, ast.Subscript) and U(x.value) in
+                           mask_alias | val_alias for b in st.body + st.orelse
+                           for x in ast.walk(b)) or any(isinstance(
+                               x, (ast.Continue, ast.Break, ast.Return))
+                            for b in st.body + st.orelse
+                            for x in ast.walk(b)):
+                        raise _Top('test `%s` not decided' % U(st.test)[:50])
+                    continue
+                if run(st.body if t else st.orelse, env, eff) == 'stop':
+                    return 'stop'
+                continue
+            if isinstance(st, (ast.Continue, ast.Break, ast.Return)):
+                return 'stop'
+            if isinstance(st, ast.Raise):
+                eff['raise'] = True
+                return 'stop'
+            if isinstance(st, ast.Assign) and len(st.targets) == 1:
+                t, v = st.targets[0], st.value
+                if isinstance(t, ast.Name):
+                    lk = is_lookup(v)
+                    if lk == 'sub':
+                        if env['@case'] == 'ABSENT':
+                            eff['raise'] = True     # uncaught KeyError
+                            return 'stop'
+                        env[t.id] = env['@case']
+                    elif isinstance(lk, tuple):
+                        if env['@case'] == 'ABSENT':
+                            d = lk[1]
+                            if d is None or (isinstance(d, ast.Constant)
+                                             and d.value is None):
+                                env[t.id] = 'NONE'
+                            else:
+                                env[t.id] = 'SENTINEL'
+                        else:
+                            env[t.id] = env['@case']
+                    elif isinstance(v, ast.Name) and v.id in env:
+                        env[t.id] = env[v.id]
+                    else:
+                        env.pop(t.id, None)
+                    continue
+                if isinstance(t, ast.Subscript) and U(t.value) in mask_alias:
+                    if isinstance(v, ast.Constant) and isinstance(
+                            v.value, bool):
+                        eff['mask'] = v.value
+                    else:
+                        tv = truth(v, env)
+                        if tv is None or not isinstance(
+                                v, (ast.Compare, ast.UnaryOp, ast.BoolOp)):
+                            raise _Top('mask value `%s` not decided'
+                                       % U(v)[:50])
+                        eff['mask'] = tv
+                    continue
+                if isinstance(t, ast.Subscript) and U(t.value) in val_alias:
+                    eff['vals'] = True
+                    continue
+        return 'next'
+
+    out = {}
+    for case in CASES:
+        if over_items and case == 'ABSENT':
+            out[case] = ('unchanged', False)
+            continue
+        env = {'@case': case}
+        if item_value:
+            env[item_value] = case
+        eff = {}
+        run(loop.body, env, eff)
+        if eff.get('raise'):
+            out[case] = ('raises', False)
+        else:
+            out[case] = (eff.get('mask', 'unchanged'), eff.get('vals',
+                                                               False))
+    return out
+
+
 def r08_3(ctx, repo):
     rule = 'R08.3'
     for cls in WRAPPERS:
         fn = repo.method(cls, 'fix_parameters')
         s = _fix_summary(fn)
+        # what a call does to one name, by the kind of its dictionary entry
+        try:
+            eff = _case_effects(fn)
+        except _Top as e:
+            ctx.error(rule, '%s.fix_parameters: %s' % (cls, e))
+            eff = None
+        if eff is not None:
+            label = {'ABSENT': 'a name that is not in the dictionary',
+                     'NONE': 'a name mapped to None',
+                     'ZERO': 'a name mapped to 0 (a falsy number)',
+                     'NUM': 'a name mapped to a non-zero number'}
+            say = {True: 'fixed', False: 'released',
+                   'unchanged': 'left as it is', 'raises': 'an error'}
+            for case in CASES:
+                got, wrote = eff[case]
+                want = WANT_MASK[case]
+                if got == want and (wrote or want is not True):
+                    ctx.ok(rule, repo.loc(fn, cls, fn.name),
+                           '%s.fix_parameters' % cls,
+                           '%s is %s' % (label[case], say[want]))
+                elif got == want:
+                    ctx.violation(
+                        rule, repo.loc(fn, cls, fn.name),
+                        '%s.fix_parameters' % cls, 'entry %s' % case,
+                        '%s is marked fixed but its value is not stored'
+                        % label[case])
+                else:
+                    ctx.violation(
+                        rule, repo.loc(fn, cls, fn.name),
+                        '%s.fix_parameters' % cls, 'entry %s' % case,
+                        '%s is %s by fix_parameters; documented: %s '
+                        '(fixing at None releases, any number fixes, names '
+                        'that are not mentioned keep their state)' % (
+                            label[case], say.get(got, got), say[want]))
         construct = '%s.fix_parameters' % cls
         where = repo.loc(fn, cls, fn.name)
         checks = [
@@ -469,8 +712,6 @@ def r08_3(ctx, repo):
             ('alloc_vals', 'the value buffer is allocated when it is None'),
             ('upd_mask', 'mask[index] is updated per name'),
             ('upd_vals', 'values[index] is updated per name'),
-            ('release', 'a value of None releases the parameter '
-                        '(`value is not None`)'),
             ('collapse', 'an all-free mask collapses to None'),
         ]
         for key, what in checks:
@@ -496,7 +737,7 @@ def r08_3(ctx, repo):
         else:
             ctx.ok(rule, where, construct,
                    'no field other than mask and values is written')
-    ctx.floor(rule, 24)
+    ctx.floor(rule, 30)
 
 
 def r08_4(ctx, repo):
